@@ -302,12 +302,21 @@ func vpReadyCell(ro vpRawOpts) {
 		if app != nil {
 			vpAssert(vpAnd(app.GetTo() == LocalAppendThread, app.GetFrom() == r.id), "D3/storage-append-target")
 			vpAssert(len(app.GetEntries()) == len(rd.Entries), "D3/storage-append-carries-entries")
+			if len(app.GetEntries()) == len(rd.Entries) {
+				for i, e := range app.GetEntries() {
+					x, y := vpSlotOf(e), vpSlotOf(rd.Entries[i])
+					vpAssert(vpAnd(x.idx == y.idx, vpSlotEq(x, y)), "D3/storage-append-entries-are-the-ready-entries")
+				}
+			}
 			if rd.HardState != nil {
 				vpAssert(vpAnd(app.Term != nil, app.Vote != nil, app.Commit != nil, app.GetTerm() == r.Term, app.GetVote() == r.Vote, app.GetCommit() == l.committed), "D3/storage-append-carries-hardstate")
 			} else {
 				vpAssert(app.Term == nil && app.Vote == nil && app.Commit == nil, "D3/storage-append-no-hardstate-if-unchanged")
 			}
 			vpAssert((app.GetSnapshot() != nil) == (rd.Snapshot != nil), "D3/storage-append-carries-snapshot")
+			if sn := app.GetSnapshot(); sn != nil && rd.Snapshot != nil {
+				vpAssert(vpAnd(sn.GetMetadata().GetIndex() == rd.Snapshot.GetMetadata().GetIndex(), sn.GetMetadata().GetTerm() == rd.Snapshot.GetMetadata().GetTerm(), vpBlobID(sn.GetData()) == vpBlobID(rd.Snapshot.GetData())), "D3/storage-append-snapshot-is-the-ready-snapshot")
+			}
 			resp := app.GetResponses()
 			for i, m := range preAfter {
 				if i < len(resp) {
@@ -332,6 +341,12 @@ func vpReadyCell(ro vpRawOpts) {
 		vpAssert((apl != nil) == (len(rd.CommittedEntries) > 0), "D3/storage-apply-iff-committed-entries")
 		if apl != nil {
 			vpAssert(vpAnd(apl.GetTo() == LocalApplyThread, len(apl.GetEntries()) == len(rd.CommittedEntries), len(apl.GetResponses()) == 1), "D3/storage-apply-shape")
+			if len(apl.GetEntries()) == len(rd.CommittedEntries) {
+				for i, e := range apl.GetEntries() {
+					x, y := vpSlotOf(e), vpSlotOf(rd.CommittedEntries[i])
+					vpAssert(vpAnd(x.idx == y.idx, vpSlotEq(x, y)), "D3/storage-apply-entries-are-the-committed-entries")
+				}
+			}
 			if len(apl.GetResponses()) == 1 {
 				x := apl.GetResponses()[0]
 				vpAssert(vpAnd(x.GetType() == pb.MsgStorageApplyResp, x.GetTo() == r.id, len(x.GetEntries()) == len(rd.CommittedEntries)), "D3/apply-resp-carries-batch")
